@@ -1,11 +1,7 @@
 package transport
 
 import (
-	"context"
-	"io"
-
 	"github.com/pkg/errors"
-	"github.com/xelaj/go-dry/ioutil"
 	"github.com/xelaj/mtproto/internal/mode"
 	"github.com/xelaj/mtproto/internal/mtproto/messages"
 )
@@ -25,17 +21,3 @@ func VerifNewTransport(m messages.MessageInformator, conn Conn, modeVariant mode
 // VerifDial, when set, replaces the TCP dial in NewTCP (the call is inserted by
 // the instrumenter at the top of NewTCP).
 var VerifDial func(cfg TCPConnConfig) (Conn, error)
-
-// VerifNewTCPConnFromReader builds the real tcpConn read path (CancelableReader -> io.ReadFull) over an
-// arbitrary reader, so that the harness can decide how the byte stream is segmented.
-func VerifNewTCPConnFromReader(ctx context.Context, r io.Reader, w io.Writer) Conn {
-	return &verifConn{tcpConn: &tcpConn{cancelReader: ioutil.NewCancelableReader(ctx, r)}, w: w}
-}
-
-type verifConn struct {
-	*tcpConn
-	w io.Writer
-}
-
-func (v *verifConn) Write(b []byte) (int, error) { return v.w.Write(b) }
-func (v *verifConn) Close() error                { return nil }
